@@ -115,6 +115,8 @@ func (s *Solver) start() error {
 	argv := append([]string{}, s.be.Inc...)
 	if strings.HasPrefix(s.be.Name, "cvc5") {
 		argv = append(argv, fmt.Sprintf("--tlimit-per=%d", s.timeout.Milliseconds()))
+	} else {
+		argv = append(argv, "-memory:6000")
 	}
 	s.cmd = exec.Command(argv[0], argv[1:]...)
 	in, err := s.cmd.StdinPipe()
@@ -588,7 +590,7 @@ func OneShot(ctx context.Context, be *Backend, script string, cap time.Duration,
 	defer cancel()
 	argv := append([]string{}, be.Argv...)
 	if strings.HasPrefix(be.Name, "z3") {
-		argv = append(argv, fmt.Sprintf("-T:%d", int(cap.Seconds())+1))
+		argv = append(argv, fmt.Sprintf("-T:%d", int(cap.Seconds())+1), "-memory:6000")
 	} else {
 		argv = append(argv, fmt.Sprintf("--tlimit=%d", cap.Milliseconds()))
 	}
